@@ -357,6 +357,9 @@ def one_module(ctx, ID, codec, at, cgen_api, gs, key, text, spec, header, source
     case0 = {'key': key, 'text': text, 'codec': codec, 'probe': probe}
     ok, warnings, msg = build.syntax_gate(d)
     st.inc('gcc_warnings', warnings)
+    if ok is None:
+        ctx.inconclusive.append(msg)
+        return
     if not ok:
         ctx.violation('generated_c_does_not_compile', case0, {'codec': codec, 'compiler': msg[:600]})
         return
@@ -460,6 +463,9 @@ def one_module(ctx, ID, codec, at, cgen_api, gs, key, text, spec, header, source
     with open(cpath, 'w') as f:
         f.write('\n'.join(lines) + '\n')
     ok, err = build.build(d)
+    if ok is None:
+        ctx.inconclusive.append(err)
+        return
     if not ok:
         if 'driver.c' in err and 'gen.c:' not in err:
             st.inc('driver_build_failed')
@@ -484,15 +490,16 @@ def one_module(ctx, ID, codec, at, cgen_api, gs, key, text, spec, header, source
     if done is None and not res['sanitizer'] and ('ReserveShadowMemoryRange' in err or 'failed to allocate' in err):
         ctx.inconclusive.append('ASan runtime could not start: ' + err[:200])
         return
+    if rc is None:
+        # wall-clock watchdog (15 min for a bounded driver): inconclusive, never a verdict
+        ctx.inconclusive.append('driver did not finish within 900 s for module {}'.format(key))
+        return
     if res['sanitizer'] or (done is None and rc not in (0, 3)):
         st.inc('sanitizer_reports', max(1, len(res['sanitizer'])))
         inp = locate_input(res['death_at'], lines, cases)
         ctx.violation('sanitizer_report', dict(case0, where=res['death_at'], input=inp),
                       {'codec': codec, 'report': (res['sanitizer'] or ['exit code {}'.format(rc)])[0], 'where': res['death_at'],
                        'input': inp, 'stderr_tail': err[-600:] if not res['sanitizer'] else ''})
-        return
-    if rc is None:
-        ctx.violation('generated_code_does_not_terminate', case0, {'codec': codec, 'where': 'timeout'})
         return
     seen = set()
     for where, what, extra in res['fails']:
